@@ -9,6 +9,10 @@ import KonstVerif.Spec.Range
     rangeinc.<via>[.rev|.irev] <ty> <a> <b>    (.rev = the macro's `rev()` i.e. `next_back` on the forward
                                                iterator, .irev = `.rev()` iterator driven with `next`)
     rangefrom[.fe|.ev] <ty> <a> <k>          the first k items of `a..`
+    rftop.<via> <ty> <a> <k>                 `a..` observed step by step up to and past MAX: `[v:<x>;…;panic|end]`;
+                                               <via> ∈ next, fe, take, evtake, zip, zipin, nth, evnext;
+                                               cc = `collect_const!(.., take(k))` const item: `panic` or all the items
+    rftop.find <ty> <a> <target>             `eval!(a.., find(|x| x == target))`, at most 24 closure calls
   values in decimal, chars as scalar values.   answer: model<TAB>spec
 -/
 namespace Driver.C09
@@ -42,6 +46,21 @@ def showVals {α} [ToString α] : Option (List α) → String
   | none => "panic"
   | some l => showList (l.map toString)
 
+def showTok {α} [ToString α] : Tok α → String
+  | .v x => "v:" ++ toString x
+  | .panic => "panic"
+  | .end_ => "end"
+  | .runaway => "runaway"
+
+def showToks {α} [ToString α] (l : List (Tok α)) : String := showList (l.map showTok)
+
+/-- a run of std's `RangeFrom` (values, then a panic or nothing more asked); std never ends -/
+def showStdRun {α} [ToString α] (r : List α × Bool) : String :=
+  showList (r.1.map (fun x => "v:" ++ toString x) ++ (if r.2 then ["panic"] else []))
+
+/-- the closure-call limit of the harness's `find` guard -/
+def findLimit : Nat := 24
+
 /-- everything the requests need from one element type.  The spec answers are evaluated through the
     shortcuts of Spec/Range.lean (`specAnswer` on the two ends of a long range, `charRangeFromFast`), which
     Props/C09.lean proves equal to the plain specification for all inputs. -/
@@ -53,6 +72,9 @@ structure Ty (α : Type) where
   rangeEnds : α → α → Nat → Option (List α × List α)
   rangeIncEnds : α → α → Nat → Option (List α × List α)
   fromList : α → Nat → List α
+  /-- std's `a..` in the checked profile: `k` steps = values + "a step panicked" -/
+  fromChecked : α → Nat → List α × Bool
+  beq : α → α → Bool
   /-- enough turns for the macro loop to see `None` -/
   fuel : α → α → Nat
 
@@ -64,6 +86,8 @@ def intTy (MIN MAX : Int) : Ty Int :=
     rangeEnds := Spec.Range.rangeEnds
     rangeIncEnds := Spec.Range.rangeIncEnds
     fromList := Spec.Range.rangeFromList
+    fromChecked := Spec.Range.rangeFromChecked MAX
+    beq := fun x y => x == y
     fuel := fun a b => (b - a).toNat + 3 }
 
 def charTy : Ty Nat :=
@@ -74,6 +98,8 @@ def charTy : Ty Nat :=
     rangeEnds := Spec.Range.charRangeEnds
     rangeIncEnds := Spec.Range.charRangeIncEnds
     fromList := Spec.Range.charRangeFromFast
+    fromChecked := Spec.Range.charRangeFromCheckedFast
+    beq := fun x y => x == y
     fuel := fun a b => b - a + 3 }
 
 def handleTy {α} [ToString α] (T : Ty α) (op : String) (args : List String) : Option (String × String) := do
@@ -105,6 +131,43 @@ def handleTy {α} [ToString α] (T : Ty α) (op : String) (args : List String) :
     | "rangeinc" =>
       some (showRun (runRangeInc T.S it h),
             showRun (some (Spec.Range.specAnswer rev (T.rangeIncEnds a b d) (fun _ => T.rangeIncList a b) h)))
+    | _ => none
+  | _, _ => none
+
+/-- `rftop.<via> <ty> <a> <k|target>`: the model's macro loops around `RangeFromIter::next` / std's `RangeFrom`
+    in the checked profile under the same consumer -/
+def handleTop {α} [ToString α] (T : Ty α) (op : String) (args : List String) : Option (String × String) := do
+  let next := RangeFromIter.next T.S
+  match op.splitOn ".", args with
+  | ["rftop", "find"], [a, t] =>
+    let a ← T.parse a
+    let t ← T.parse t
+    let p := fun x => T.beq x t
+    let spec := match Spec.Range.findOfRun (T.fromChecked a) p findLimit with
+      | .inl x => "[v:" ++ toString x ++ "]"
+      | .inr true => "[panic]"
+      | .inr false => "[runaway]"
+    some (showToks [findLoop next p a findLimit], spec)
+  | ["rftop", via], [a, k] =>
+    let a ← T.parse a
+    let k ← parseNat k
+    let run := T.fromChecked a
+    match via with
+    | "next" => some (showToks (pulls next a k), showStdRun (run k))
+    | "fe" => if k = 0 then none else some (showToks (forEachBreak next a k), showStdRun (run k))
+    | "take" | "evtake" => some (showToks (takeLoop next a k), showStdRun (run k))
+    | "cc" =>
+      -- `collect_const!(T => a.., take(k))` as a const item: a panic during const evaluation is all one sees
+      let m := takeLoop next a k
+      some (if m.any (fun t => match t with | .panic => true | _ => false) then "panic" else showToks m, if (run k).2 then "panic" else showStdRun (run k))
+    | "zip" => some (showToks (zipLoop next a k), showStdRun (Spec.Range.zipOfRun run k))
+    | "zipin" => some (showToks (zipInLoop next a k), showStdRun (run k))
+    | "nth" | "evnext" =>
+      let n ← if via = "nth" then some k else if k = 1 then some 0 else none
+      let spec := match Spec.Range.nthOfRun run n with
+        | some x => "[v:" ++ toString x ++ "]"
+        | none => "[panic]"
+      some (showToks [nthLoop next a n], spec)
     | _ => none
   | _, _ => none
 
@@ -146,6 +209,7 @@ def handle (op : String) (args : List String) : Option (String × String) :=
   match args with
   | ty :: rest =>
     let go {α} [ToString α] (T : Ty α) : Option (String × String) :=
+      if op.startsWith "rftop." then handleTop T op rest else
       match handleDrain T op rest with
       | some r => some r
       | none => handleTy T op rest
